@@ -38,6 +38,8 @@ type EntryResult struct {
 	CrossChecked   int                   `json:"cross_checked"`
 	CrossDisagree  []string              `json:"cross_disagree,omitempty"`
 	CrossDismissed int                   `json:"cross_dismissed,omitempty"`
+	CrossUnknown   int                   `json:"cross_unknown,omitempty"`
+	CrossAbandoned int                   `json:"cross_abandoned,omitempty"`
 	InitDiag       []string              `json:"init_diag,omitempty"`
 	Stubs          []string              `json:"stubs"`
 	Completed      int                   `json:"paths_completed"`
@@ -94,7 +96,7 @@ func RunEntry(L *Loaded, entry string, opts RunOpts) (*EntryResult, error) {
 		SolverSec: e.solver.Time.Seconds(), WallSec: time.Since(t0).Seconds(), Violations: e.Violations,
 		Known: e.KnownHits, Inconclusive: dedupe(e.Inconclusive), ReachHit: e.ReachHit, Bounds: e.Bounds,
 		Assumptions: e.Assumptions, Samples: e.Samples, Witness: e.WitnessInputs, Observed: e.Observed,
-		MaxAlloc: e.MaxAlloc, Completed: e.Completed, ModelHits: e.ModelHits, CrossChecked: e.CrossChecked, CrossDisagree: e.CrossDisagree, CrossDismissed: e.CrossDismissed, InitDiag: e.InitDiag}
+		MaxAlloc: e.MaxAlloc, Completed: e.Completed, ModelHits: e.ModelHits, CrossChecked: e.CrossChecked, CrossDisagree: e.CrossDisagree, CrossDismissed: e.CrossDismissed, CrossUnknown: e.CrossUnknown, CrossAbandoned: e.CrossAbandoned, InitDiag: e.InitDiag}
 	if intMode {
 		res.Mode = "int"
 	} else {
